@@ -264,3 +264,15 @@ Print Assumptions C12_swept_section_vectors.
 Theorem C12_span_vector_unit : forall g : v3 R, vdot g g <> 0 -> vdot (vdivs g (vnorm g)) (vdivs g (vnorm g)) = 1.
 Proof. exact vdivs_unit. Qed.
 Print Assumptions C12_span_vector_unit.
+(* ... and at the control points, where the node vectors are interpolated linearly: the span vector normalised, the axial vector freed of
+   its span component and normalised, and their cross product are an orthonormal triad again (fix 55e4504), whatever the interpolated
+   vectors are as long as the first does not vanish and the second is not parallel to it *)
+Theorem C12_control_point_triads : forall xs uas uss (s : R),
+  let us0 := interp_vec xs uss s in
+  let ua0 := interp_vec xs uas s in
+  vdot us0 us0 <> 0 ->
+  (let us := vdivs us0 (vnorm us0) in let ua1 := vsub ua0 (vscale (vdot ua0 us) us) in vdot ua1 ua1 <> 0) ->
+  let '(ua, un, us) := cp_triad xs uas uss s in
+  vdot ua ua = 1 /\ vdot un un = 1 /\ vdot us us = 1 /\ vdot ua us = 0 /\ vdot un ua = 0 /\ vdot un us = 0.
+Proof. exact cp_triad_orthonormal. Qed.
+Print Assumptions C12_control_point_triads.
